@@ -34,6 +34,7 @@ type scenario struct {
 	// expectations
 	wantDrops bool // the first generation is expected to be lost involuntarily
 	poke      bool // while the scripted failures last, call Open again and again (must be ErrAlreadyOpen, must not disturb the loop)
+	body      int  // >0: the driver's data primaries carry an ASCII body of this many characters
 	quiet     bool // send nothing until the scripted generations are gone (a link that shows life is never dropped by linktest)
 }
 
@@ -122,7 +123,14 @@ func runScenario(c *vh.Ctx, sc scenario) {
 			time.Sleep(time.Millisecond)
 			continue
 		}
-		ok, serr, pn := r.SendRoundTrip(sc.cfg.T3)
+		var ok bool
+		var serr error
+		var pn any
+		if sc.body > 0 {
+			ok, serr = r.SendRoundTripItem(sc.cfg.T3, sc.body)
+		} else {
+			ok, serr, pn = r.SendRoundTrip(sc.cfg.T3)
+		}
 		if pn != nil {
 			c.Fail("C11: SendDataMessage panicked", desc())
 			break
@@ -199,6 +207,25 @@ func runScenario(c *vh.Ctx, sc scenario) {
 			c.Fail("C11: re-dial after a mid-frame stall later than T8 + backoff + slack", fmt.Sprintf("%s stalled_after_bytes=%d gap_ms=%d", desc(), e.N[0], next.Sub(e.T).Milliseconds()))
 		} else if next.Sub(e.T) < sc.cfg.T8 {
 			c.Fail("C11: re-dial earlier than T8 after a mid-frame stall", fmt.Sprintf("%s stalled_after_bytes=%d gap_ns=%d", desc(), e.N[0], next.Sub(e.T)))
+		}
+	}
+	// a peer that stopped READING (link open): the next local frame's write must time out and drop the
+	// link — within the linktest interval (if that is what writes next) + writeTimeout + backoff + slack
+	for _, e := range evs {
+		if e.K != "W" {
+			continue
+		}
+		next := time.Time{}
+		for _, d := range evs {
+			if d.K == "D" && d.Seq > e.Seq {
+				next = d.T
+				break
+			}
+		}
+		if next.IsZero() {
+			c.Fail("C11: no re-dial after the peer stopped reading (write timeout)", fmt.Sprintf("%s deaf_after_frames=%d", desc(), e.N[0]))
+		} else if lim := sc.cfg.Linktest + sc.cfg.T3 + sc.cfg.WriteTimeout + sc.cfg.BackoffInit + upSlack; next.Sub(e.T) > lim {
+			c.Fail("C11: re-dial after a write-side stall later than writeTimeout + slack", fmt.Sprintf("%s gap_ms=%d", desc(), next.Sub(e.T).Milliseconds()))
 		}
 	}
 	checkGaps(c, r, sc, evs)
@@ -375,6 +402,46 @@ func e2ePass(c *vh.Ctx) {
 			p.ReplyBody = body
 			p.StallIn = 14 + off // 14 = the select frame the peer wrote first (Select.rsp / Select.req)
 			runScenario(c, scenario{tag: fmt.Sprintf("t8stall:in@%d", off), active: active, cfg: cfg, plans: []lc.Plan{p}, wantDrops: true})
+		}
+	}
+	// --- C2b: WRITE-side stalls: the peer completes Select (and k further exchanges), then stops
+	// READING while the link stays open; the next local frame is, in turn, a Linktest.req (auto
+	// linktest, quiet driver), a header-only data primary, a data primary with a body, and — peer
+	// that never reads at all — the library's Select.req / Select.rsp. Only the write timeout covers it.
+	for _, active := range []bool{true, false} {
+		for _, kind := range []string{"linktest", "data-header-only", "data-body", "select"} {
+			for _, after := range []int{1, 3} {
+				cfg := e2eCfg()
+				cfg.WriteTimeout = 60 * time.Millisecond
+				p := lc.Normal()
+				sc := scenario{active: active, cfg: cfg, wantDrops: true}
+				switch kind {
+				case "linktest":
+					sc.cfg.Linktest = 10 * time.Millisecond
+					sc.quiet = true
+					p.StopReadingAfter = after
+				case "data-header-only":
+					sc.cfg.Linktest = 0
+					p.StopReadingAfter = after
+				case "data-body":
+					sc.cfg.Linktest = 0
+					sc.body = 40
+					p.StopReadingAfter = after
+				case "select":
+					if after != 1 {
+						continue
+					}
+					sc.cfg.Linktest = 0
+					p.NoRead = true
+				}
+				if !active && kind != "select" {
+					// passive: frame 1 read by the peer is the library's Select.rsp
+					p.StopReadingAfter = after
+				}
+				sc.tag = fmt.Sprintf("wstall:%s/after%d", kind, after)
+				sc.plans = []lc.Plan{p}
+				runScenario(c, sc)
+			}
 		}
 	}
 	// --- C3: "ensure open" calls while a reconnect loop is in flight (after a drop with the peer
